@@ -390,3 +390,111 @@ def make_bound_problem(rng, n, fkind, decades):
     P["x0"] = x0
     P["start_infeasible"] = bool(onp.any(x0[idx] < 0))
     return P
+
+
+# ------------------------------------------------------------------ load sequences on ONE objective (data through p)
+
+def _plant_activity(rng, m):
+    """Per-constraint slack / multiplier with s_i lam_i = 0: ~40% strongly active, ~15% weakly active, rest inactive."""
+    slack = onp.zeros(m)
+    lam = onp.zeros(m)
+    for i in range(m):
+        r = rng.random()
+        if r < 0.4:
+            lam[i] = abs(rng.standard_normal()) + 0.1
+        elif r < 0.55:
+            pass
+        else:
+            slack[i] = abs(rng.standard_normal()) + 0.1
+    return slack, lam
+
+
+def make_al_sequence(rng, n, fkind, m, steps):
+    """min f(x; b) s.t. G x - h >= 0 where b = p[0] (bc_data slot) and h = p[2] (design_data slot) change every load
+    step.  Each step has its own planted KKT point (x*_k, lam*_k); G is fixed with G d > 0 for one direction d, so
+    every step's feasible set has the Slater point x*_k + t d.  Returns (P, steps); P['b'], P['cons'] are step 0's."""
+    P = _objective_part(rng, n, fkind)
+    d = _unit(rng, n)
+    G = rng.standard_normal((m, n))
+    for i in range(m):
+        if G[i] @ d < 0:
+            G[i] = -G[i]
+        if abs(G[i] @ d) < 0.05 * onp.linalg.norm(G[i]):
+            G[i] = G[i] + 0.2 * onp.linalg.norm(G[i]) * d
+    xs = rng.standard_normal(n) * float(rng.uniform(0.3, 2.0))
+    out = []
+    for k in range(steps + 1):
+        if k > 0:
+            xs = xs + rng.standard_normal(n) * float(rng.choice([0.1, 0.5, 1.5]))
+        slack, lam = _plant_activity(rng, m)
+        h = G @ xs - slack
+        Pk = dict(P, cons=[{"kind": "lin", "g": G[i], "h": float(h[i])} for i in range(m)], b=onp.zeros(n))
+        cstar = cons(Pk, xs)
+        cstar[onp.abs(cstar) < 1e-12] = 0.0
+        lam = onp.where(cstar > 0, 0.0, lam)
+        b = P["A"] @ xs + f_extra_grad(P, xs) - G.T @ lam
+        out.append({"b": b, "h": h, "xstar": xs.copy(), "lamstar": lam, "n_weak": int(onp.sum((cstar == 0) & (lam == 0))),
+                    "n_active": int(onp.sum(lam > 0))})
+    P["G"] = G
+    P["d"] = d
+    P["x0"] = out[0]["xstar"] + rng.standard_normal(n)
+    return P, out
+
+
+def step_problem(P, st):
+    """The numpy-side problem of one load step (for grad_f / cons / jac)."""
+    G = P["G"]
+    return dict(P, b=st["b"], cons=[{"kind": "lin", "g": G[i], "h": float(st["h"][i])} for i in range(G.shape[0])])
+
+
+def jax_funcs_sequence(P):
+    """f(x, p) with linear term p[0]; c(x, p) = G x - p[2]."""
+    import jax.numpy as np
+    A = np.array(P["A"])
+    k = P["fkind"]
+    D = np.array(P["D"]) if "D" in P else None
+    w = np.array(P["w"]) if "w" in P else None
+    gamma = P.get("gamma", 0.0)
+    G = np.array(P["G"])
+
+    def f(x, p):
+        v = 0.5 * x @ (A @ x) - p[0] @ x
+        if k == "logcosh":
+            t = D @ x
+            v = v + w @ (np.logaddexp(t, -t) - LOG2)
+        elif k == "quartic":
+            v = v + 0.25 * gamma * np.sum(x ** 4)
+        return v
+
+    def cfun(x, p):
+        return G @ x - p[2]
+
+    return f, cfun
+
+
+def make_front_sequence(rng, n, fkind, decades, steps):
+    """Bound front end (x_I >= 0) with the linear term b = p[0] changing every step; a planted optimum per step."""
+    P = make_bound_problem(rng, n, fkind, decades)
+    Dg = P["dofscale"]
+    idx = P["idx"]
+    k = len(idx)
+    E = onp.zeros((k, n))
+    E[onp.arange(k), idx] = 1.0
+    out = [{"b": P["b"], "xstar": P["xstar"], "lamstar": P["lamstar"], "n_weak": P["n_weak"]}]
+    for _ in range(steps):
+        xs = rng.standard_normal(n) / Dg
+        mu = onp.zeros(k)
+        nweak = 0
+        for j, i in enumerate(idx):
+            r = rng.random()
+            if r < 0.4:
+                xs[i] = 0.0
+                mu[j] = (abs(rng.standard_normal()) + 0.1) * Dg[i]
+            elif r < 0.55:
+                xs[i] = 0.0
+                nweak += 1
+            else:
+                xs[i] = (abs(rng.standard_normal()) + 0.1) / Dg[i]
+        b = P["A"] @ xs + f_extra_grad(P, xs) - E.T @ mu
+        out.append({"b": b, "xstar": xs, "lamstar": mu, "n_weak": nweak})
+    return P, out
